@@ -162,6 +162,21 @@ func (s *Sched) parkedKeys() []string {
 	return s.keysLocked()
 }
 
+// isParkedFor: some worker is parked under key or under one of its numbered variants (key~2, ...: Gate).
+func (s *Sched) isParkedFor(key string) bool {
+	s.mu.Lock()
+	defer s.mu.Unlock()
+	if s.parked[key] != nil {
+		return true
+	}
+	for k := range s.parked {
+		if strings.HasPrefix(k, key+"~") {
+			return true
+		}
+	}
+	return false
+}
+
 func (s *Sched) isParked(key string) bool {
 	s.mu.Lock()
 	defer s.mu.Unlock()
